@@ -58,7 +58,7 @@ class Sandbox:
         for name in os.listdir(saved):
             s = os.path.join(saved, name)
             d = os.path.join(self.R, name)
-            if os.path.isdir(s):
+            if os.path.isdir(s) and not os.path.islink(s):
                 copy_tree(s, d)
             else:
                 copy_file(s, d)
@@ -71,6 +71,9 @@ class Sandbox:
 
 
 def copy_file(s, d):
+    if os.path.islink(s):
+        os.symlink(os.readlink(s), d)      # links are kept as links (their text still names the universe root)
+        return
     with open(s, 'rb') as f:
         data = f.read()
     with open(d, 'wb') as f:
